@@ -733,7 +733,10 @@ def call_arguments(fdef, call, names, base=PEval):
         f = [a for a in alts if not a[0][depth][1]]
         if not t or not f:
             return merge(alts, depth + 1)
-        return ('where', c0, merge(t, depth + 1), merge(f, depth + 1))
+        mt, mf = merge(t, depth + 1), merge(f, depth + 1)
+        if same(mt, mf):
+            return mt
+        return ('where', c0, mt, mf)
     for nm in {k for _, v in seen for k in v}:
         out[nm] = merge([(c, v[nm]) for c, v in seen if nm in v], 0)
     return out
